@@ -527,6 +527,10 @@ func (bkt *Bucket) incr(ki *KeyInfo, value int) int {
 			if len(tofree.Body) > 22 {
 				logger.Warnf("incr with large value %s...", string(tofree.Body[:22]))
 				errFlag = true
+				// same releases as the error path below
+				cmem.DBRL.GetData.SubSizeAndCount(tofree.CArray.Cap)
+				tofree.CArray.Free()
+				cmem.DBRL.SetData.SubCount(1)
 				return 0
 			}
 			s := string(tofree.Body)
@@ -556,6 +560,11 @@ func (bkt *Bucket) incr(ki *KeyInfo, value int) int {
 	s := strconv.Itoa(value)
 	payload.Body = []byte(s)
 	payload.CalcValueHash()
+	if tofree != nil {
+		// the record read above is not needed any more
+		cmem.DBRL.GetData.SubSizeAndCount(tofree.CArray.Cap)
+		tofree.CArray.Free()
+	}
 	bkt.set(ki, payload)
 	return value
 }
